@@ -72,6 +72,31 @@ def _call(case):
                                 {"traceback": traceback.format_exc()[-1500:]})]}
 
 
+def _batches(items, workers, t_target=2.0):
+    """Yield consecutive slices; the slice size adapts so that one slice takes about
+    t_target seconds.  Work is always submitted as complete pool.map calls, so the pool
+    is never abandoned with tasks in flight (Pool.terminate can dead-lock otherwise)."""
+    i, n = 0, max(workers * 4, 8)
+    while i < len(items):
+        t = time.time()
+        yield items[i:i + n]
+        dt = max(time.time() - t, 1e-3)
+        i += n
+        n = int(min(max(workers * 2, n * min(4.0, max(0.25, t_target / dt))), 20000))
+
+
+def _pmap(pool, f, batch, workers):
+    if pool is None:
+        return list(map(f, batch))
+    return pool.map(f, batch, max(1, min(64, len(batch) // (workers * 4))))
+
+
+def _close(pool):
+    if pool is not None:
+        pool.close()
+        pool.join()
+
+
 def run_grid(run, cases, evalf, cap_s=None, workers=None, section=None, chunksize=None):
     """Evaluate evalf on EVERY case (a list of JSON-able dicts).
 
@@ -85,39 +110,33 @@ def run_grid(run, cases, evalf, cap_s=None, workers=None, section=None, chunksiz
     t0 = time.time()
     done = 0
     infos = []
-    if workers <= 1 or len(cases) < 4:
-        it = map(_call, cases)
-        pool = None
-    else:
-        ctx = mp.get_context("fork")
-        pool = ctx.Pool(workers)
-        cs = chunksize or max(1, min(16, len(cases) // (workers * 8)))
-        it = pool.imap(_call, cases, cs)
+    pool = None
+    if workers > 1 and len(cases) >= 4:
+        pool = mp.get_context("fork").Pool(workers)
     try:
-        for res in it:
-            done += 1
-            if "harness_error" in res:
-                raise isolation.HarnessError(res["harness_error"])
-            run.case(res["case"], res.get("nontrivial", True), res.get("outcome"),
-                     section=section)
-            extra = int(res.get("n", 0))
-            if extra:
-                run.evaluations += extra
-            for v in res["violations"]:
-                key, what = v[0], v[1]
-                det = v[2] if len(v) > 2 else None
-                run.violation(key, what, res["case"], det)
-            if res.get("info") is not None:
-                infos.append(res["info"])
+        for batch in _batches(cases, workers):
+            for res in _pmap(pool, _call, batch, workers):
+                done += 1
+                if "harness_error" in res:
+                    raise isolation.HarnessError(res["harness_error"])
+                run.case(res["case"], res.get("nontrivial", True), res.get("outcome"),
+                         section=section)
+                extra = int(res.get("n", 0))
+                if extra:
+                    run.evaluations += extra
+                for v in res["violations"]:
+                    key, what = v[0], v[1]
+                    det = v[2] if len(v) > 2 else None
+                    run.violation(key, what, res["case"], det)
+                if res.get("info") is not None:
+                    infos.append(res["info"])
             if cap_s is not None and time.time() - t0 > cap_s and done < len(cases):
                 run.cap("grid %s: wall cap %ss hit after %d of %d cases (ordered "
                         "simplest-first; only the evaluated prefix is covered)"
                         % (section or "", cap_s, done, len(cases)))
                 break
     finally:
-        if pool is not None:
-            pool.terminate()
-            pool.join()
+        _close(pool)
     return infos
 
 
@@ -133,6 +152,9 @@ def _exec(hist):
         with isolation.quiet():
             res = _EXEC(hist)
         res["hist"] = hist
+        res["keyhash"] = h(res.pop("key"))
+        if res.get("outcome") is not None and not isinstance(res["outcome"], str):
+            res["outcome"] = h(res["outcome"])
         return res
     except isolation.HarnessError:
         return {"hist": hist, "harness_error": traceback.format_exc()}
@@ -165,7 +187,7 @@ def run_bfs(run, execute, depth, cap_s=None, workers=None, section=None,
         root = _exec(tuple(init))
         if "harness_error" in root:
             raise isolation.HarnessError(root["harness_error"])
-        seen = {h(root["key"])}
+        seen = {root["keyhash"]}
         run.states += 1
         frontier = [(tuple(init), root["enabled"])]
         completed = 0
@@ -174,43 +196,44 @@ def run_bfs(run, execute, depth, cap_s=None, workers=None, section=None,
             if not jobs:
                 break
             nxt = []
-            it = pool.imap(_exec, jobs, max(1, min(32, len(jobs) // (workers * 8)))) \
-                if pool else map(_exec, jobs)
             capped = False
-            for res in it:
-                if "harness_error" in res:
-                    raise isolation.HarnessError(res["harness_error"])
-                run.transitions += 1
-                run.traces_validated += 1
-                run.case(list(res["hist"]), res.get("nontrivial", True),
-                         res.get("outcome"), section=section)
-                for v in res.get("violations", []):
-                    run.violation(v[0], v[1], {"history": list(res["hist"])},
-                                  v[2] if len(v) > 2 else None)
-                k = h(res["key"])
-                if k not in seen:
-                    seen.add(k)
-                    run.states += 1
-                    if not res.get("terminal"):
-                        nxt.append((res["hist"], res["enabled"]))
-                if cap_s is not None and time.time() - t0 > cap_s:
-                    capped = True
-                    break
-                if max_states and run.states >= max_states:
-                    capped = True
-                    break
+            ndone = 0
+            for batch in _batches(jobs, workers):
+                for res in _pmap(pool, _exec, batch, workers):
+                    ndone += 1
+                    if "harness_error" in res:
+                        raise isolation.HarnessError(res["harness_error"])
+                    run.transitions += 1
+                    run.traces_validated += 1
+                    run.case(list(res["hist"]), res.get("nontrivial", True),
+                             res.get("outcome"), section=section)
+                    for v in res.get("violations", []):
+                        run.violation(v[0], v[1], {"history": list(res["hist"])},
+                                      v[2] if len(v) > 2 else None)
+                    k = res["keyhash"]
+                    if k not in seen:
+                        seen.add(k)
+                        run.states += 1
+                        if not res.get("terminal"):
+                            nxt.append((res["hist"], res["enabled"]))
+                if ndone < len(jobs):
+                    if cap_s is not None and time.time() - t0 > cap_s:
+                        capped = True
+                        break
+                    if max_states and run.states >= max_states:
+                        capped = True
+                        break
             if capped:
-                run.cap("bfs %s: cap hit in depth %d (depth %d complete; states=%d)"
-                        % (section or "", d + 1, completed, run.states))
+                run.cap("bfs %s: cap hit in depth %d after %d of %d transitions (depth %d "
+                        "complete; states=%d)" % (section or "", d + 1, ndone, len(jobs),
+                                                  completed, run.states))
                 break
             completed = d + 1
             frontier = nxt
         run.bounds.setdefault("bfs_depth_completed", {})[section or "main"] = completed
         return completed
     finally:
-        if pool is not None:
-            pool.terminate()
-            pool.join()
+        _close(pool)
 
 
 def approx(a, b, tol, scale=None):
